@@ -45,7 +45,14 @@ class C14(Check):
             "Handle/HandleFunc/HandleRemove on the mux dispatching them (random scripted tables, an independent table "
             "as oracle, each question a muxserve model case), registrations and further requests while a handler is "
             "parked, DefaultServeMux through the package-level functions, the same through serveUDP with Handler = mux; "
-            "every call under a 15 s watchdog, a call that does not return is reported with its history. A case is non-trivial unless it is an ignored/none outcome; distinct by hash.")
+            "every call under a 15 s watchdog, a call that does not return is reported with its history. Messages of every "
+            "admission class received WHILE Shutdown begins (the scripted transport returns the message only after it has "
+            "seen Shutdown's past read deadline, i.e. after `started` was cleared), UDP and TCP, 0..2 queries served "
+            "before, same oracles and serve model cases. Requests carrying every EDNS0 option code, every SVCB/HTTPS "
+            "parameter key and a record of every registered / unknown type, through serveUDP with every handler parked "
+            "while later datagrams (further requests, all-ones / all-zeros fillers) are read into the recycled buffers "
+            "(single P, no GC): deep fingerprint of the request equals an independent decoding on entry and is unchanged "
+            "at release. A case is non-trivial unless it is an ignored/none outcome; distinct by hash.")
     partial = [
         "the message decoder (Msg.unpack) is a parameter of the serve model: 'decodes' means what the real Unpack "
         "returns (its safety is property C02); the theorems hold for every decoder",
